@@ -278,6 +278,29 @@ func (e *Engine) computeModSets() {
 					if m.union(gm, false) {
 						changed = true
 					}
+				} else if g.Pkg == e.pkg || g.Pkg == nil {
+					// a synthetic function of the package (wrapper of a promoted method, bound method):
+					// its effect is the effect of the functions it forwards to
+					fw := forwardedCallees(g)
+					if len(fw) == 0 {
+						if !m.All {
+							m.All = true
+							m.Why = "call of synthetic function " + g.String()
+							changed = true
+						}
+						continue
+					}
+					for _, h := range fw {
+						if hm, ok := e.mods[h]; ok {
+							if m.union(hm, false) {
+								changed = true
+							}
+						} else if !m.All {
+							m.All = true
+							m.Why = "call of synthetic function " + g.String()
+							changed = true
+						}
+					}
 				}
 			}
 		}
@@ -340,6 +363,8 @@ func (e *Engine) implementers(recv types.Type, method *types.Func) []*ssa.Functi
 
 func (e *Engine) callMods(f *ssa.Function, call ssa.CallInstruction, m *ModSet, addCall func(*ssa.Function)) {
 	c := call.Common()
+	e.pendingCalls = addCall
+	defer func() { e.pendingCalls = nil }()
 	if c.IsInvoke() {
 		impls := e.implementers(c.Value.Type(), c.Method)
 		inPkg := false
@@ -395,10 +420,94 @@ func (e *Engine) callMods(f *ssa.Function, call ssa.CallInstruction, m *ModSet, 
 			addCall(fn)
 		}
 	default:
-		// dynamic call of a function value: could be any closure of the package
-		m.All = true
-		m.Why = "dynamic call in " + e.fname(f)
+		// dynamic call of a function value: any function of the package with that signature whose
+		// address is taken (closed world); if none is known the call may do anything
+		sig, _ := c.Value.Type().Underlying().(*types.Signature)
+		cands := e.funcValues(sig)
+		if len(cands) == 0 {
+			// a callback installed by the API user in a struct field (e.g. Linter.onRulesCreated):
+			// assumed to touch only what it can reach through its arguments
+			if u, ok := c.Value.(*ssa.UnOp); ok {
+				if _, isField := u.X.(*ssa.FieldAddr); isField {
+					seen := map[string]bool{}
+					for _, a := range c.Args {
+						e.typeReach(a.Type(), seen, func(n string) { m.add(n, modOld) })
+					}
+					return
+				}
+			}
+			m.All = true
+			m.Why = "dynamic call in " + e.fname(f)
+			return
+		}
+		for _, g := range cands {
+			addCall(g)
+		}
 	}
+}
+
+// funcValues: package functions/closures used as values whose signature is identical to sig.
+func (e *Engine) funcValues(sig *types.Signature) []*ssa.Function {
+	if sig == nil {
+		return nil
+	}
+	if e.fnValues == nil {
+		e.fnValues = map[*ssa.Function]bool{}
+		for _, f := range e.order {
+			for _, b := range f.Blocks {
+				for _, ins := range b.Instrs {
+					if mc, ok := ins.(*ssa.MakeClosure); ok {
+						if g, ok := mc.Fn.(*ssa.Function); ok {
+							e.fnValues[g] = true
+						}
+					}
+					var ops []*ssa.Value
+					for _, op := range ins.Operands(ops) {
+						if g, ok := (*op).(*ssa.Function); ok && g.Pkg == e.pkg {
+							if call, isCall := ins.(ssa.CallInstruction); isCall && call.Common().Value == ssa.Value(g) {
+								// direct callee position: not a value use, unless also passed as argument
+								used := false
+								for _, a := range call.Common().Args {
+									if a == ssa.Value(g) {
+										used = true
+									}
+								}
+								if !used {
+									continue
+								}
+							}
+							e.fnValues[g] = true
+						}
+					}
+				}
+			}
+		}
+	}
+	var out []*ssa.Function
+	for _, g := range e.order {
+		if e.fnValues[g] && types.Identical(g.Signature, sig) {
+			out = append(out, g)
+		}
+	}
+	// closures are not in e.order if nested; scan all known functions
+	for g := range e.fnValues {
+		found := false
+		for _, x := range out {
+			if x == g {
+				found = true
+			}
+		}
+		if !found && sameParamsResults(g.Signature, sig) {
+			out = append(out, g)
+		}
+	}
+	sort.Slice(out, func(i, j int) bool { return e.fname(out[i]) < e.fname(out[j]) })
+	return out
+}
+
+func sameParamsResults(a, b *types.Signature) bool {
+	return types.Identical(types.NewSignatureType(nil, nil, nil, a.Params(), a.Results(), a.Variadic()),
+		types.NewSignatureType(nil, nil, nil, b.Params(), b.Results(), b.Variadic()))
 }
 
 // libMods: effect of library functions on the package heap. Default: none, except through
@@ -406,19 +515,64 @@ func (e *Engine) callMods(f *ssa.Function, call ssa.CallInstruction, m *ModSet, 
 func (e *Engine) libMods(callee *ssa.Function, c *ssa.CallCommon, m *ModSet) {
 	name := libName(callee)
 	switch {
+	case name == "(*scanner.Scanner).Next" || name == "(*scanner.Scanner).Init":
+		m.add("SC:pos", modOld)
+		m.add("SC:src", modOld)
 	case name == "sort.Strings" || name == "sort.Ints":
 		n, _ := e.elemArr(c.Args[0].Type().Underlying().(*types.Slice).Elem())
 		m.add(n, modOld)
-	case name == "sort.Sort" || name == "sort.Stable" || name == "sort.Slice" || name == "sort.SliceStable":
+	case name == "sort.Sort" || name == "sort.Stable":
+		// sorts the named slice in place through its Swap method
+		arg := c.Args[0]
+		if mi, ok := arg.(*ssa.MakeInterface); ok {
+			arg = mi.X
+		}
+		if st, ok := arg.Type().Underlying().(*types.Slice); ok {
+			n, _ := e.elemArr(st.Elem())
+			m.add(n, modOld)
+			return
+		}
+		m.All = true
+		m.Why = name
+	case name == "sort.Slice" || name == "sort.SliceStable":
 		m.All = true
 		m.Why = name
 	case strings.HasSuffix(name, ".Decode") || strings.HasSuffix(name, ".Unmarshal") || strings.HasSuffix(name, "json.Unmarshal"):
+		// decoding writes what is reachable from the target argument
+		target := c.Args[len(c.Args)-1]
+		if mi, ok := target.(*ssa.MakeInterface); ok {
+			target = mi.X
+		}
+		if pt, ok := target.Type().Underlying().(*types.Pointer); ok {
+			if it, ok := pt.Elem().Underlying().(*types.Interface); ok && it.NumMethods() == 0 {
+				// *interface{}: the cell itself plus freshly allocated generic values
+				n, _ := e.cellArr(pt.Elem())
+				m.add(n, modOld)
+				en, _ := e.elemArr(pt.Elem())
+				m.add(en, modFresh)
+				return
+			}
+		}
+		if pt, ok := target.Type().Underlying().(*types.Pointer); ok {
+			// decoding into a value of a known type writes only what is reachable from that type
+			seen := map[string]bool{}
+			e.typeReach(pt.Elem(), seen, func(n string) { m.add(n, modOld) })
+			return
+		}
 		m.All = true
 		m.Why = name
 	case strings.Contains(name, "errgroup") || strings.Contains(name, "sync.") || strings.Contains(name, "filepath.Walk") || strings.Contains(name, "template"):
-		// may run package closures / callbacks
+		// may run package closures / callbacks: the effect is the closure's (sequential abstraction)
 		for _, a := range c.Args {
 			if _, ok := a.Type().Underlying().(*types.Signature); ok {
+				if mc, ok := a.(*ssa.MakeClosure); ok {
+					if fn, ok := mc.Fn.(*ssa.Function); ok {
+						if e.pendingCalls != nil {
+							e.pendingCalls(fn)
+							continue
+						}
+					}
+				}
 				m.All = true
 				m.Why = name
 			}
@@ -431,4 +585,69 @@ func (e *Engine) libMods(callee *ssa.Function, c *ssa.CallCommon, m *ModSet) {
 			}
 		}
 	}
+}
+
+// typeReach enumerates the heap arrays that hold values reachable from a value of type t.
+func (e *Engine) typeReach(t types.Type, seen map[string]bool, out func(string)) {
+	k := e.typeName(t)
+	if seen[k] {
+		return
+	}
+	seen[k] = true
+	switch u := t.Underlying().(type) {
+	case *types.Pointer:
+		el := u.Elem()
+		if isStruct(el) {
+			e.typeReach(el, seen, out)
+		} else {
+			n, _ := e.cellArr(el)
+			out(n)
+			e.typeReach(el, seen, out)
+		}
+	case *types.Struct:
+		for i := 0; i < u.NumFields(); i++ {
+			ft := u.Field(i).Type()
+			if !isStruct(ft) {
+				n, _, _ := e.fieldArr(t, i)
+				out(n)
+			}
+			e.typeReach(ft, seen, out)
+		}
+	case *types.Slice:
+		n, _ := e.elemArr(u.Elem())
+		out(n)
+		e.typeReach(u.Elem(), seen, out)
+	case *types.Array:
+		n, _ := e.elemArr(u.Elem())
+		out(n)
+		e.typeReach(u.Elem(), seen, out)
+	case *types.Map:
+		d, v, _, _ := e.mapArrs(u)
+		out(d)
+		out(v)
+		e.typeReach(u.Key(), seen, out)
+		e.typeReach(u.Elem(), seen, out)
+	case *types.Interface:
+		if u.NumMethods() == 0 {
+			n, _ := e.elemArr(t)
+			out(n)
+		}
+	}
+}
+
+// forwardedCallees: the static callees of a synthetic wrapper.
+func forwardedCallees(g *ssa.Function) []*ssa.Function {
+	var out []*ssa.Function
+	for _, b := range g.Blocks {
+		for _, ins := range b.Instrs {
+			if c, ok := ins.(ssa.CallInstruction); ok {
+				if h := c.Common().StaticCallee(); h != nil {
+					out = append(out, h)
+				} else {
+					return nil
+				}
+			}
+		}
+	}
+	return out
 }
